@@ -69,6 +69,11 @@ class NTPServer(Service, discriminator="ntp-server"):
             self.sys_log.debug(f"{self.name}: {payload}")
             return False
         payload: NTPPacket = payload
+        if payload.ntp_reply is not None:
+            # a packet that already carries a reply is not a request: answering it would start an endless exchange
+            # between two NTP servers (an NTP server and an NTP client can exist on the same node)
+            self.sys_log.debug(f"{self.name}: Ignoring an NTP packet that already carries a reply")
+            return False
 
         # generate a reply with the current time
         time = datetime.now()
